@@ -1301,6 +1301,10 @@ func endsWithLineComment(src string) bool {
 // brace goes on its own line when the value ends with a line comment.
 func closeExpression(value string, indent int, closer string) string {
 	if endsWithLineComment(value) {
+		if strings.HasSuffix(value, "\n") {
+			// The value already carries the line break that ends its comment.
+			return strings.Repeat("\t", indent) + closer
+		}
 		return "\n" + strings.Repeat("\t", indent) + closer
 	}
 	return " " + closer
